@@ -171,10 +171,21 @@ theorem reader_consistent (h : Handler) (ha : h.atomicCreate = true) (cfg : Cfg)
   rw [hf] at g; simp only [Good] at g
   exact final_immutable_run ha sched hinv _ _ g.2
 
-/-- a published manifest of version `v` was written by a task that targets `v` -/
+/-- a published manifest of version `v` was written by a WRITER that targets `v` (no reader, no writer of
+    another version ever creates or replaces it) -/
 theorem published_by_target (h : Handler) (ha : h.atomicCreate = true) (cfg : Cfg) (roles : Nat → Role) (s : State)
-    (hr : Reachable h cfg roles s) (v c : Nat) (hc : s.final v = some c) : cfg.tgt c = v :=
-  ((inv_reachable ha hr).pubBy v c hc).1
+    (hr : Reachable h cfg roles s) (v c : Nat) (hc : s.final v = some c) : cfg.tgt c = v ∧ isW roles c = true :=
+  ⟨((inv_reachable ha hr).pubBy v c hc).1, ((inv_reachable ha hr).pubBy v c hc).2.2⟩
+
+/-- "exactly one": in the uncontended case somebody does win — a writer that runs first, alone and without
+    faults, returns `Ok` with its manifest published (4 calls suffice for every handler) -/
+theorem first_writer_wins (h : Handler) (ha : h.atomicCreate = true) (cfg : Cfg) (roles : Nat → Role) (i : Nat)
+    (hw : roles i = .writer) :
+    (run cfg (init h roles) (List.replicate 4 (i, Fault.none))).pcs i = .done .ok ∧
+    (run cfg (init h roles) (List.replicate 4 (i, Fault.none))).final (cfg.tgt i) = some i := by
+  cases h <;> simp [Handler.atomicCreate] at ha <;>
+    simp [List.replicate, run, step, init, startPc, Handler.start, hw, go, setFinal, setTmp, setLock, renameEff,
+      release, refuses, upd_apply, Fault.bad]
 
 /-- readers (`resolve_version_location`, `resolve_latest_location`) never write: a step of a non-writer
     leaves the whole store as it is -/
@@ -209,6 +220,8 @@ theorem c02_full : C02_full := by
 /-! ### the hypotheses are necessary -/
 
 def cfg1 : Cfg := { tgt := fun _ => 1, top := 1 }
+/-- the same with a `CommitLock` that refuses `lock(v)` for committed versions -/
+def cfg1c : Cfg := { tgt := fun _ => 1, top := 1, lockChecks := true }
 def allWriters : Nat → Role := fun _ => .writer
 
 /-- `UnsafeCommitHandler`: two writers of version 1 both return `Ok`, the second overwrites the first -/
@@ -272,6 +285,11 @@ example : (run cfg1 (init .lock raceRoles) lockRace).pcs 0 = .done .ok ∧
     (run cfg1 (init .lock raceRoles) lockRace).pcs 1 = .done .conflict ∧
     (run cfg1 (init .lock raceRoles) lockRace).final 1 = some 0 ∧
     (run cfg1 (init .lock raceRoles) lockRace).lock = none := by decide
+
+/-- checking lock: writer 1 is refused by `lock()` itself once version 1 is committed -/
+example : (run cfg1c (init .lock raceRoles) [(0, .none), (0, .none), (0, .none), (0, .none), (1, .none)]).pcs 0 = .done .ok ∧
+    (run cfg1c (init .lock raceRoles) [(0, .none), (0, .none), (0, .none), (0, .none), (1, .none)]).pcs 1 = .done .conflict ∧
+    (run cfg1c (init .lock raceRoles) [(0, .none), (0, .none), (0, .none), (0, .none), (1, .none)]).lock = none := by decide
 
 /-- `FinalImmutable`'s premise with a continuation that tries to write: a lost-response put, a retry, a reader -/
 example : (run cfg1 (init .condPut raceRoles) [(0, .lost)]).final 1 = some 0 ∧
